@@ -21,6 +21,14 @@ CAUGHT = {
 }
 REBASED = {("C19", "B"): "rebased onto fix b2b37aa (handler lookup skips non-UFL mixins): the original hunk no longer applied",
            ("C24", "B"): "rebased onto fix f028513 (Conditional.evaluate condition component): the original hunk no longer applied"}
+WHY_NOT = {
+    ("C25", "A"): "on the current HEAD it fails the unedited suite (test_sobolevspace.py::test_contains_hdiv, test_contains_hcurl): after fix c3b76a2 "
+                  "(directional Sobolev membership via <=) __contains__ goes through the patched comparison, which the existing tests exercise. "
+                  "It passed the suite when produced (before that fix) and was caught by C25 then; stored for reference only.",
+    ("C12", "A"): "no longer breaks the property on the current HEAD: it makes _cmp_coefficient delegate to _cmp_terminal_by_repr, which since fix "
+                  "3ba7944 compares embedded counts by value; its demonstration now passes on the patched tree. It was caught by C12 (and by the "
+                  "demonstration) before that fix; stored for reference only.",
+}
 verified = {}
 for line in open("/tmp/verify_seeds.tsv"):
     f = line.rstrip("\n").split("\t")
@@ -85,7 +93,7 @@ for pid in sorted(os.listdir(SRC)):
                 "results": v,
             },
             "kept": bool(ok),
-            "why_not_kept": None if ok else "does not pass the unedited test suite on the current HEAD; stored for reference only (see meta.json)",
+            "why_not_kept": None if ok else WHY_NOT.get((pid, L), "does not satisfy the keeping criteria on the current HEAD; stored for reference only"),
             "caught_by": CAUGHT.get(pid, {}).get(L, []),
         })
     prop = None
